@@ -36,6 +36,7 @@ fn wilson_contract_stub(c: Confidence, n: usize, k: usize) -> CIResult<Interval<
     Ok(Interval::TwoSided(l, h))
 }
 #[kani::proof]
+#[kani::solver(kissat)]
 #[kani::stub(crate::proportion::ci_wilson, wilson_contract_stub)]
 fn c11_quantile_ci_total() {
     let n: usize = kani::any();
